@@ -144,6 +144,7 @@ func init() {
 			complete := true
 			eval := func(c c02Case, nontrivial bool) {
 				r.Evals.Add(1)
+				r.Journal(c)
 				r.Transitions.Add(1)
 				r.Traces.Add(int64(len(c.Locs)))
 				ok, sig, detail := c02Eval(c)
